@@ -469,6 +469,8 @@ pub struct SymBattery {
     pub hs_is_diagonal: bool,
     pub shift: Vec<f64>,      // combined_ds_shift(step_z = x, step_s = y, sigma_mu)
     pub offset: Vec<f64>,     // Δs_from_Δz_offset(ds = x)
+    pub w_acc: Vec<f64>,      // mul_W(N, out = y, x, -1, 1):  y - W x
+    pub winv_acc: Vec<f64>,   // mul_Winv(T, out = y, x, 2, -1):  2 W^-T x - y
     pub expanded_x: Vec<f64>, // sparse-expanded second-order cone: eta^2 (D + uu' - vv') x, the block the KKT matrix holds (else empty)
     pub ident_hs_x: Vec<f64>, // mul_Hs x after set_identity_scaling() on the cone scaled above
     pub ident_block: Vec<f64>, // get_Hs after set_identity_scaling()
@@ -509,6 +511,8 @@ pub fn sym_cone_battery(
             out.winv_w_x = v(&mut |o| c.mul_Winv(MatrixShape::N, o, &wx, 1.0, 0.0));
             let winvtx = v(&mut |o| c.mul_Winv(MatrixShape::T, o, x, 1.0, 0.0));
             out.wt_winvt_x = v(&mut |o| c.mul_W(MatrixShape::T, o, &winvtx, 1.0, 0.0));
+            out.w_acc = { let mut o = y.to_vec(); c.mul_W(MatrixShape::N, &mut o, x, -1.0, 1.0); o };
+            out.winv_acc = { let mut o = y.to_vec(); c.mul_Winv(MatrixShape::T, &mut o, x, 2.0, -1.0); o };
             out.x_circ_y = v(&mut |o| c.circ_op(o, x, y));
             out.y_circ_x = v(&mut |o| c.circ_op(o, y, x));
             if y_interior && $div {
@@ -541,12 +545,15 @@ pub fn sym_cone_battery(
             out.ident_block = blk;
         }};
     }
+    // (the diagonal part is read through get_Hs, as the KKT assembly reads it; the rank-two part from the cone's u, v, eta)
     let expanded = |c: &SecondOrderCone<f64>| -> Vec<f64> {
         match &c.sparse_data {
             None => vec![],
             Some(sd) => {
+                let mut dg = vec![0.0; n];
+                c.get_Hs(&mut dg);
                 let (ux, vx): (f64, f64) = ((0..n).map(|i| sd.u[i] * x[i]).sum(), (0..n).map(|i| sd.v[i] * x[i]).sum());
-                (0..n).map(|i| c.η * c.η * ((if i == 0 { sd.d } else { 1.0 }) * x[i] + sd.u[i] * ux - sd.v[i] * vx)).collect()
+                (0..n).map(|i| dg[i] * x[i] + c.η * c.η * (sd.u[i] * ux - sd.v[i] * vx)).collect()
             }
         }
     };
